@@ -3,6 +3,7 @@ package c16lib
 import (
 	"encoding/json"
 	"fmt"
+	"reflect"
 	"strings"
 
 	"github.com/vektah/gqlparser/v2/ast"
@@ -91,12 +92,45 @@ func layersOfType(t *introspection.Type) []Layer {
 	return out
 }
 
+// The package's API for argument lists and input fields has no includeDeprecated
+// parameter on the pinned tree (Field.Args / Directive.Args are struct fields,
+// Type.InputFields() takes no argument). They are reached reflectively so that
+// the check also builds against a tree where they became methods taking the flag.
+func inputList(owner any, name string, inc bool) (list []introspection.InputValue, filtered bool) {
+	rv := reflect.ValueOf(owner)
+	if m := rv.MethodByName(name); m.IsValid() {
+		var out []reflect.Value
+		if m.Type().NumIn() == 1 && m.Type().In(0).Kind() == reflect.Bool {
+			out = m.Call([]reflect.Value{reflect.ValueOf(inc)})
+			filtered = true
+		} else if m.Type().NumIn() == 0 {
+			out = m.Call(nil)
+		} else {
+			panic("unexpected signature of " + name)
+		}
+		list, _ = out[0].Interface().([]introspection.InputValue)
+		if list == nil && !out[0].IsNil() {
+			list = []introspection.InputValue{}
+		}
+		if out[0].IsNil() {
+			return nil, filtered
+		}
+		return list, filtered
+	}
+	f := rv.Elem().FieldByName(name)
+	if !f.IsValid() {
+		panic("introspection API has neither method nor field " + name)
+	}
+	list, _ = f.Interface().([]introspection.InputValue)
+	return list, false
+}
+
 func oinput(x introspection.InputValue) OInput {
 	return OInput{Name: x.Name, Description: ostr(x.Description()), Type: layersOfType(x.Type),
 		Default: ostr(x.DefaultValue), IsDep: b2s(x.IsDeprecated()), Reason: ostr(x.DeprecationReason())}
 }
 
-func otype(t *introspection.Type, inc bool) OType {
+func otype(t *introspection.Type, inc bool, flt *OView) OType {
 	o := OType{Kind: t.Kind(), Description: ostr(t.Description()), URL: ostr(t.SpecifiedByURL())}
 	if n := t.Name(); n != nil {
 		o.Name = *n
@@ -107,7 +141,10 @@ func otype(t *introspection.Type, inc bool) OType {
 		for _, f := range fs {
 			of := OField{Name: f.Name, Description: ostr(f.Description()), Type: layersOfType(f.Type),
 				IsDep: b2s(f.IsDeprecated()), Reason: ostr(f.DeprecationReason())}
-			for _, a := range f.Args {
+			f := f
+			al, filtered := inputList(&f, "Args", inc)
+			flt.HasArgFilter = filtered
+			for _, a := range al {
 				of.Args = append(of.Args, oinput(a))
 			}
 			o.Fields = append(o.Fields, of)
@@ -134,7 +171,9 @@ func otype(t *introspection.Type, inc bool) OType {
 			o.EnumValues = append(o.EnumValues, OEnum{Name: e.Name, Description: ostr(e.Description()), IsDep: b2s(e.IsDeprecated()), Reason: ostr(e.DeprecationReason())})
 		}
 	}
-	if xs := t.InputFields(); xs == nil {
+	xs, filtered := inputList(t, "InputFields", inc)
+	flt.HasInpFilter = filtered
+	if xs == nil {
 		o.InputFieldsNull = true
 	} else {
 		for _, x := range xs {
@@ -166,11 +205,13 @@ func ObserveRuntime(schema *ast.Schema, inc bool) (v *OView, err error) {
 	}
 	for _, t := range w.Types() {
 		t := t
-		v.Types = append(v.Types, otype(&t, inc))
+		v.Types = append(v.Types, otype(&t, inc, v))
 	}
 	for _, d := range w.Directives() {
 		od := ODir{Name: d.Name, Description: ostr(d.Description()), Repeatable: b2s(d.IsRepeatable), Locations: d.Locations}
-		for _, a := range d.Args {
+		d := d
+		al, _ := inputList(&d, "Args", inc)
+		for _, a := range al {
 			od.Args = append(od.Args, oinput(a))
 		}
 		v.Directives = append(v.Directives, od)
@@ -179,18 +220,19 @@ func ObserveRuntime(schema *ast.Schema, inc bool) (v *OView, err error) {
 }
 
 // ObserveRuntimeType is introspectType's path: WrapTypeFromDef(schema, schema.Types[name]).
-func ObserveRuntimeType(schema *ast.Schema, name string, inc bool) (o *OType, err error) {
+func ObserveRuntimeType(schema *ast.Schema, name string, inc bool) (o *OType, flt *OView, err error) {
 	defer func() {
 		if r := recover(); r != nil {
 			err = fmt.Errorf("panic in introspection package: %v", r)
 		}
 	}()
+	flt = &OView{}
 	t := introspection.WrapTypeFromDef(schema, schema.Types[name])
 	if t == nil {
-		return nil, nil
+		return nil, flt, nil
 	}
-	ot := otype(t, inc)
-	return &ot, nil
+	ot := otype(t, inc, flt)
+	return &ot, flt, nil
 }
 
 // ---- (b) JSON of a generated server ----
